@@ -920,6 +920,13 @@ func TestSim(t *testing.T) {
 			if len(w.Clients) == 1 {
 				cfg.SiteSample = 1e-9 // a single caller cannot be interleaved with anybody
 			}
+			if w.Mode == "tskb" {
+				// graph.KindBitmaps is a Go map: Get() / Cardinality() / Clone() visit the kinds in the runtime's random
+				// order, so scheduling points INSIDE the per-kind bitmap operations would make the schedule depend on
+				// it (found by the determinism self-test). Interleaving at the structure's lock is what is explored
+				// here; unsynchronised access to a per-kind bitmap is the race probe's business.
+				cfg.SiteSample = 1e-9
+			}
 			if bigConc(w) {
 				cfg.SiteSample = 1e-9 // interleaving at the wrappers' locks only: the sets are too large for more
 			}
